@@ -16,7 +16,8 @@ from common import Program
 from report import Report, Undecidable
 
 VERIF = os.path.dirname(os.path.dirname(os.path.abspath(__file__)))
-DOCUMENTED_MISSES = {"C09-endstringcommented-guard-lost": "byte-identity with the pinned release is differential; not decided (DESIGN §13)",
+DOCUMENTED_MISSES = {"C09d-continued-line-predicate-changed-on-2024-branch": "the predicate is only consulted on the `>= Edition2024` branch, whose gate is unchanged: 2015 ≡ 2018 ≡ 2021 still holds, and that 2024 itself is frozen is differential (DESIGN §13)",
+                     "C09-endstringcommented-guard-lost": "byte-identity with the pinned release is differential; not decided (DESIGN §13)",
                      "C09c-qualified-macro-special-case-2024": "a new `>= Edition2024` test is constant on 2015/2018/2021; that 2024 itself is frozen is differential (DESIGN §13)",
                      "C19c-hunk-body-tracking-miscounts-stripped-blank-context": "a stateful hunk-body tracker is a legitimate design; that this one miscounts stripped blank context lines is a value-level fact (DESIGN §13)",
                      "C08c-leading-blank-skip-only-strips-bare-newlines": "which characters count as blank at the start of a file is a value-level fact of skip_empty_lines; no exact structural clause (DESIGN §13)"}
